@@ -46,6 +46,10 @@ using std::string;
 // behind the preprocessor.)
 static CPPVisibility preprocessor_vis = V_public;
 
+// The maximum nesting of included files and macro expansions, as a guard
+// against runaway recursion.
+static const int max_nesting_depth = 200;
+
 // Don't forget to update CPPToken::output() when adding entries.
 static const std::unordered_map<std::string, int> keywords = {
   {"alignas", KW_ALIGNAS},
@@ -1878,6 +1882,12 @@ handle_if_directive(const string &args, const YYLTYPE &loc) {
  */
 void CPPPreprocessor::
 handle_include_directive(const string &args, const YYLTYPE &loc) {
+  if (get_file_depth() >= max_nesting_depth) {
+    // Probably a file that (indirectly) includes itself without a guard.
+    error("#include nested too deeply", loc);
+    return;
+  }
+
   Filename filename;
   Filename filename_as_referenced;
   bool angle_quotes = false;
@@ -2257,7 +2267,12 @@ get_identifier(int c) {
 
   // Is it a manifest?
   Manifests::const_iterator mi = _manifests.find(name);
-  if (mi != _manifests.end() && !should_ignore_manifest((*mi).second)) {
+  if (mi != _manifests.end() && !should_ignore_manifest((*mi).second) &&
+      get_file_depth() >= max_nesting_depth) {
+    // Probably a function-like macro that keeps invoking itself.
+    error("macro expansion of " + name + " nested too deeply", loc);
+
+  } else if (mi != _manifests.end() && !should_ignore_manifest((*mi).second)) {
     // If the manifest is expecting arguments, we don't expand it unless the
     // the next token is an open-parenthesis.
     CPPManifest *manifest = (*mi).second;
